@@ -4,6 +4,8 @@
 PROPS = {}
 
 ENGINES = [
+    {"name": "hidi-inpackage", "path": "/verif/overlay/cmdhidi_common_test.go", "serves_properties": ["C09"],
+     "kind_free_text": "in-package test of cmd/hidi (package main) built with go test -overlay + alternative go.mod; the cgo ALSA driver is replaced by a stub"},
     {"name": "harness", "path": "/verif/harness", "serves_properties": [],
      "kind_free_text": "Go test binary (module github.com/gethiox/HIDI/verifharness, replace => /repo) built from /repo's working tree on "
                        "every invocation; rapid generators + reference models/monitors; sharded by ./check"},
@@ -219,6 +221,7 @@ prop(
     "distinct by input hash (fuzzing: inputs kept for new coverage).",
     [
         dict(test="TestC09", shards=16, checks_quick=25000, checks_thorough=600000),
+        dict(test="TestC09Hidi", bin="hidi", shards_quick=4, shards_thorough=16, checks_quick=5000, checks_thorough=100000),
         dict(test="FuzzC09", fuzz=True, tiers=["thorough"], fuzztime="420s", shards=1, replay_test="TestC09", timeout_thorough=1800),
     ],
     level_text="Generated-input search (grammar-based + mutation-based) and, in the thorough tier, coverage-guided fuzzing with the no-panic / "
@@ -328,6 +331,32 @@ prop(
     level_note="Trusted: the harness consumers/feeder; cmd/hidi/manager.go itself needs evdev nodes and is represented by the same library calls "
                "in the same order (SpawnOutput -> NewDevice -> ProcessEvents -> DespawnOutput). A lost wake-up needing one exact interleaving could be missed.",
     technique="stateful property-based testing (rapid) of attach/detach/stall schedules with sequence-number and blocked-state oracles",
+)
+
+
+prop(
+    "C18", "fault_enumeration",
+    "updateHIDIConfiguration() of package main (in-package test injected with -overlay; ALSA driver swapped for a stub) run in a fresh working "
+    "directory per case. State of hidi-config: absent (first start), or present with every built-in factory file independently intact / absent / "
+    "truncated at a generated byte / modified (shorter, same length, longer), factory directories absent, 0-7 arbitrary files below user/ "
+    "(incl. names that mirror factory names, nested dirs), hidi.toml and the blacklist present with arbitrary bytes or absent, extra files. "
+    "Crash states are built by construction from the deterministic walk order: an interrupted FIRST run (walk entries before k exist, entry k "
+    "cut at byte b, nothing after) and an interrupted UPDATE run over a generated state (factory files before k restored, file k truncated to b "
+    "bytes, the rest as generated). 0-2 reruns. Oracle: no error; every built-in factory file present and byte-identical to its embedded "
+    "template (and the embedded templates equal cmd/hidi/hidi-config in the source tree: TestC18Templates); every pre-existing file below user/, "
+    "hidi.toml, the blacklist and extra files byte-identical (hash+size+path set), nothing appears below user/; blacklist created from its "
+    "template iff missing; absent directory -> exactly the full template tree; a rerun leaves the tree snapshot unchanged. "
+    "Non-trivial = a truncated or longer factory file together with user files, or a crash state; distinct by case hash.",
+    [
+        dict(test="TestC18", bin="hidi", shards=16, checks_quick=300, checks_thorough=12000),
+        dict(test="TestC18Templates", bin="hidi", shards=1, replayable=False),
+    ],
+    level_text="Generated directory states incl. constructed crash states (interruption after any entry of the deterministic walk, at a generated "
+               "byte), tree-diff oracle against the embedded templates.",
+    level_note="Trusted: real files on the sandbox file system; the crash model is 'files written so far are complete, the current one is a prefix' "
+               "(no torn directory entries, no reordering of writes across files).",
+    technique="property-based testing (rapid) over generated directory states + constructed crash states, tree-diff oracle, idempotence",
+    engine="hidi-inpackage",
 )
 
 
